@@ -265,6 +265,11 @@ def precision_job(job, res):
         for rec in i.data_records:
             if rec.record_type == 'service' and Fraction(rec.service_end_date) != Fraction(rec.service_start_date) + Fraction(svcd):
                 res['viol'].append(('service_end_not_exact_sum_at_requested_precision', (method, k, str(rec.service_start_date), str(rec.service_end_date)))); break
+        # a customer still at the node (in service, or blocked as in the deadlock runs) has no record yet: its live dates count too
+        if not i.data_records and isinstance(getattr(i, 'service_start_date', False), Decimal) and isinstance(getattr(i, 'service_end_date', False), Decimal):
+            res['ref_compared'] += 1
+            if Fraction(i.service_end_date) != Fraction(i.service_start_date) + Fraction(svcd):
+                res['viol'].append(('service_end_not_exact_sum_at_requested_precision', (method, k, str(i.service_start_date), str(i.service_end_date)))); break
     res['sample'] = {'kind': 'precision', 'seed': seed, 'k': k, 'inter_arrival': str(step), 'method': method, 'customers': len(inds)}
     return res
 
